@@ -51,6 +51,18 @@ struct Fault
   std::string str() const { return kind == F_NONE ? "-" : std::string(fkn[kind]) + "@" + std::to_string(node) + "." + std::to_string(j); }
 };
 
+// nesting depth of a tree string such as "Ak0(Bk1(-),-)" (used by replays to regenerate the right family)
+static int tree_str_depth(const std::string& s)
+{
+  int d = 0, m = 0;
+  for (char c : s) {
+    if (c == '(') m = std::max(m, ++d);
+    else if (c == ')') d--;
+    else if (c == '|') break;
+  }
+  return m;
+}
+
 // all trees with depth <= maxdepth and width <= 2
 static void gen_trees(int maxdepth, int npool, std::vector<Tree>& out, bool small_k)
 {
@@ -64,11 +76,17 @@ static void gen_trees(int maxdepth, int npool, std::vector<Tree>& out, bool smal
         for (int n = 1; n <= 2; n++) {
           // children choices: each of n slots is none or one of subs
           int opts = (int)subs.size() + 1;
-          int total = n == 1 ? opts : opts * opts;
           // cap the fan-out at depth 3 to keep the family finite but complete for shapes: second child restricted to {none, same as first}
-          for (int c = 0; c < total; c++) {
-            int c0 = c % opts, c1 = n == 2 ? c / opts : 0;
-            if (n == 2 && depth >= 3 && c1 != 0 && c1 != c0) continue;
+          std::vector<std::pair<int, int>> choices;
+          for (int c0 = 0; c0 < opts; c0++) {
+            if (n == 1) choices.push_back({ c0, 0 });
+            else if (depth >= 3) {
+              choices.push_back({ c0, 0 });
+              if (c0 != 0) choices.push_back({ c0, c0 });
+            } else
+              for (int c1 = 0; c1 < opts; c1++) choices.push_back({ c0, c1 });
+          }
+          for (auto [c0, c1] : choices) {
             Tree t;
             TNode root;
             root.s = s;
